@@ -23,6 +23,9 @@ SPEC = dict(
                 "QUIC stratum (3 of 14; strata weights A 7, B 2, race 2): layer B with A and B listening on QUIC only (real quic-go, "
                 "p2p/transport/quic incl. holePunch(), quicreuse over a simulated UDP wire), NAT = endpoint-dependent UDP filter, UDP loss / "
                 "duplication / reordering in part of the runs (stopped before the closing phase). "
+                "In a third of the QUIC runs each, A's / B's gater refuses the peer's inbound direct connections at Accept or Secured "
+                "(from the start or once the relayed connection exists); a direct connection counts as existing only if it passed the "
+                "node's own InterceptSecured before the swarm admitted it. "
                 "History oracles over stamped invocations, notifications, gater admissions, transport dials and tracer events; "
                 "Connectedness compared with the notified connection set at robust quiescent instants. Sampling, not proof."),
     level_note=("trusted: testing/synctest, the overlay rewrite, simrand (pinned crypto/rand in the QUIC stratum), simnet's UDP model, simnet's TCP model (no SYN retransmission: a dial towards a firewalled "
@@ -56,7 +59,7 @@ SPEC = dict(
           "(Reserve, dial, stop handler, limited flag)", "holepunch service and hole puncher (dcutr exchange, direct dial, retries, tracer)",
           "QUIC stratum: quic-go, p2p/transport/quic (dial, listener, holePunch), quicreuse", "tcp transport dial path, upgrader + listener, noise / insecure, multistream-select, yamux", "pstoremem, eventbus"],
     stubs=["wire: simnet TCP model; simnet UDP model with drawn loss / duplication / latency (QUIC stratum)", "UDP NAT filter (datagram X->Y passes only if Y sent to X within 2 s or the flow is established)", "stateful firewall predicate (inbound accepted only from an IP dialled within the last 2 s)",
-           "scripted MultiaddrDNSResolver on A (dnsaddr / dns4 names of B and the relay)", "recording wrappers that only delegate: connection gater, circuit transport Dial, host handed to the hole punching service"],
+           "scripted MultiaddrDNSResolver on A (dnsaddr / dns4 names of B and the relay)", "scripted inbound refusal in the recording connection gater (QUIC stratum)", "recording wrappers that only delegate: connection gater, circuit transport Dial, host handed to the hole punching service"],
     assume=["virtual clock of testing/synctest", "no process stalls (timing oracles use 1 s slack)",
             "zero virtual time passes between a connection becoming unusable and its Disconnected notification"],
 )
